@@ -122,9 +122,18 @@ def check(ctx) -> Result:
                     cfg = ctx.cfg(gu)
                     dom = cfg.dominators()
                     vnodes = [nd.id for nd in cfg.nodes if nd.kind == "stmt" and isinstance(nd.ast, ast.Expr) and src(nd.ast.value) == "self.validate()"]
-                    uses = [nd for nd in cfg.nodes if nd.ast is not None and nd.kind in ("stmt", "test") and any(isinstance(x, ast.Attribute) and x.attr == acc.name for e in _node_exprs(nd) for x in ast.walk(e))]
+                    # methods of the component that read the resolved value (directly or through other methods)
+                    readers = set()
+                    for _r in range(3):
+                        for mn_, mf_ in k.methods.items():
+                            if mn_ in ("validate", "get_unitary") or mn_ in readers:
+                                continue
+                            if any(isinstance(x, ast.Attribute) and isinstance(x.value, ast.Name) and x.value.id == "self" and (x.attr == acc.name or x.attr in readers) for x in walk_no_nested(mf_.node)):
+                                readers.add(mn_)
+                    uses = [nd for nd in cfg.nodes if nd.ast is not None and nd.kind in ("stmt", "test") and any(isinstance(x, ast.Attribute) and isinstance(x.value, ast.Name) and x.value.id == "self" and (x.attr == acc.name or x.attr in readers) for e in _node_exprs(nd) for x in ast.walk(e))]
                     if not uses:
-                        raise AnalysisError(f"{gu.qualname}: accessor {acc.name} not used")
+                        res.frozen(False, "LB-validate-dominates", gu.qualname, gu.site(), gu.qualname, "", f"no read of the resolved value ({acc.name}) recognised in the matrix construction", construct=gu.qualname)
+                        continue
                     okd = bool(vnodes) and all(any(v in dom[u.id] for v in vnodes) for u in uses)
                     res.add(okd, "LB-validate-dominates", gu.qualname, gu.site(), gu.qualname, "self.validate() dominates every read of the resolved value",
                             "matrix construction can read the parameter value without passing validate(): an invalid value does not surface as a compilation error", construct=gu.qualname)
@@ -179,7 +188,7 @@ def check(ctx) -> Result:
                 "compiled result (or part of it) is stored on the circuit: later Parameter updates would not be reflected" + (": " + evs[0].detail if evs else ""), construct=f"Circuit.{name}")
     for name in ("U", "U_full"):
         fi = ctx.func(CIRC, f"Circuit.{name}", "getter")
-        calls = any(isinstance(n, ast.Call) and src(n.func) == "self._build" for n in walk_no_nested(fi.node))
+        calls = any(isinstance(n, ast.Call) and src(n.func) == "self._build" for n in walk_no_nested(with_helpers(ctx, fi, exclude=("_build",)).node))
         res.add(calls, "LB-build-on-read", f"Circuit.{name}", fi.site(), fi.qualname, "getter compiles through self._build() on every read", "getter does not compile through self._build()", construct=f"Circuit.{name}")
     bp = ctx.func(CIRC, "Circuit._build_process")
     loops = [n for n in walk_no_nested(bp.node) if isinstance(n, ast.For) and "circuit_spec" in src(n.iter)]
